@@ -4,6 +4,7 @@ import Driver.Expr
 import Driver.OptD
 import Driver.MadxD
 import Driver.LinD
+import Driver.HeapD
 /-! `xdriver <suite>`: one JSON object per input line, one JSON object per output line. -/
 open Lean
 
@@ -63,12 +64,21 @@ partial def loopLin (h : IO.FS.Stream) (out : IO.FS.Stream) (n : Nat) : IO Unit 
   | .ok j => out.putStrLn ((DLin.step j).setObjVal! "n" n).compress
   loopLin h out (n+1)
 
+partial def loopHeap (h : IO.FS.Stream) (out : IO.FS.Stream) (n : Nat) : IO Unit := do
+  let line ← h.getLine
+  if line.isEmpty then return ()
+  match Json.parse line with
+  | .error e => out.putStrLn (Json.mkObj [("n", n), ("bad-op", .str ("parse: " ++ e))]).compress
+  | .ok j => out.putStrLn ((DHeap.step j).setObjVal! "n" n).compress
+  loopHeap h out (n+1)
+
 def main (args : List String) : IO UInt32 := do
   let stdin ← IO.getStdin
   let stdout ← IO.getStdout
   match args with
   | ["mgr"] => loopMgr stdin stdout Manager.MState.init 0; return 0
   | ["lin"] => loopLin stdin stdout 0; return 0
+  | ["heap"] => loopHeap stdin stdout 0; return 0
   | ["madx"] => loopMadx stdin stdout 0; return 0
   | ["opt"] => loopOpt stdin stdout 0; return 0
   | ["expr"] => loopExpr stdin stdout 0; return 0
